@@ -67,7 +67,7 @@ let do_rd cfgs hx =
          (String.concat "," (List.map (fun c -> Printf.sprintf "%d.%d.%d" (int_of_nat c.sc_ci) (int_of_z c.sc_dc)
                                           (int_of_z c.sc_ac)) sc.s_comps))
          (int_of_z sc.s_Ss) (int_of_z sc.s_Se) (int_of_z sc.s_Ah) (int_of_z sc.s_Al)
-         (int_of_cspace (decide_colorspace (z_of_int (zlen fr.f_comps)) h lossless ids))));
+         (int_of_cspace (decide_colorspace (z_of_int (zlen fr.f_comps)) h lossless ids)));
        List.iter (fun m -> Buffer.add_string b (Printf.sprintf " m %d %d %d %s ;" (int_of_z m.sm_code)
                                                  (int_of_z m.sm_orig) (zlen m.sm_data) (fnv m.sm_data))) hd.hd_saved;
        Buffer.add_string b (" | " ^ icc_str (read_icc hd.hd_saved));
